@@ -144,7 +144,10 @@ def run(spec):
     for ((fid, alt), a), r in zip(frun, fres):
         found.setdefault(fid, None)
         if classify_e2(r) == 'monitor':
-            if is_listed(r) or (alt and alt in re.sub(r'\d+', 'N', mon_msg(r))):
+            # only the signature of THIS finding (or the alternative one given for this directed run) counts here
+            own = [f['signature'] for f in kf if f['id'] == fid and f['signature']]
+            sig_r = re.sub(r'\d+', 'N', mon_msg(r))
+            if any(sg in sig_r[:160] for sg in own) or (alt and alt in sig_r):
                 found[fid] = found[fid] or mon_msg(r)
             else:
                 r['argv'] = a
